@@ -88,6 +88,12 @@ def main():
                     child = multiprocessing.Process(target=time.sleep, args=(0.01,))
                     child.start()
                     child.join()
+                if b == 'start_async_cassette':
+                    # replayed service code that initialises its own recording context: an asynchronous cassette is created and
+                    # started inside the worker and never closed (as a request handler's init_recording_mode() would do)
+                    from playback.tape_cassettes.asynchronous.async_record_only_tape_cassette import AsyncRecordOnlyTapeCassette
+                    leaked_cassettes.append(AsyncRecordOnlyTapeCassette(InMemoryTapeCassette(), flush_interval=0.05))
+                    leaked_cassettes[-1].start()
                 if b == 'die_idle':
                     # the worker answers this replay normally and is killed a moment later while it sits idle between replays
                     import signal
@@ -98,7 +104,7 @@ def main():
                         os.kill(os.getpid(), signal.SIGKILL)
                     threading.Thread(target=_kill_later, daemon=True).start()
             tok = v['token']
-            self.write(tok + ('-CHANGED' if (b == 'different' and rec.in_playback_mode) else ''))
+            self.write(tok + ('-CHANGED' if (b in ('different', 'dict_diff') and rec.in_playback_mode) else ''))
             return tok
 
         @rec.intercept_input('eq.read')
@@ -110,6 +116,7 @@ def main():
             return 'ok'
 
     raise_in_player = [False]
+    leaked_cassettes = []
     ids = []
     for i, b in enumerate(case['behaviours']):
         current.clear()
@@ -143,39 +150,49 @@ def main():
             raise RuntimeError('comparator fails for ' + recorded)
         if behaviour_of(recorded) == 'bare_status':
             return EqualityStatus.Equal
+        if behaviour_of(recorded) == 'dict_diff':
+            # a structured diff object instead of a text (the field is free-form)
+            return ComparatorResult(EqualityStatus.Different, '%s != %s' % (recorded, played), diff={'expected': recorded, 'actual': played, 'rows': [1, 2]})
         if recorded == played:
             return ComparatorResult(EqualityStatus.Equal, 'equal ' + recorded)
         return ComparatorResult(EqualityStatus.Different, '%s != %s' % (recorded, played))
 
+    if case.get('slow_start'):
+        # injected delay at an existing suspension point: the parent is descheduled right after a worker process was forked
+        import multiprocessing.process as _mpp
+        _orig_start = _mpp.BaseProcess.start
+
+        def _slow_start(self):
+            _orig_start(self)
+            time.sleep(case['slow_start'])
+        _mpp.BaseProcess.start = _slow_start
     cfg = CompareExecutionConfig(keep_results_in_comparison=case.get('keep', False), compare_in_dedicated_process=case['dedicated'],
                                  compare_process_recycle_rate=case.get('recycle', 5), compare_process_timeout=timeout)
-    eq = Equalizer(iter(ids), player, result_extractor, comparator, compare_execution_config=cfg)
-
-    # ---- observation wrappers (harness side, nothing in the repository) --------------------------------
+    # ---- observation wrappers (harness side, nothing in the repository; class level so that an Equalizer built by the studio is seen too)
     pids = []
     task_pid = []
-    orig_create = eq._create_new_player_process
+    orig_create = Equalizer._create_new_player_process
 
-    def create():
-        orig_create()
-        pids.append(eq._compare_process.pid)
-    eq._create_new_player_process = create
-    orig_recycle = eq._create_or_recycle_player_process_if_needed
+    def create(self):
+        orig_create(self)
+        pids.append(self._compare_process.pid)
+    Equalizer._create_new_player_process = create
+    orig_recycle = Equalizer._create_or_recycle_player_process_if_needed
 
-    def recycle():
-        orig_recycle()
-        task_pid.append(eq._compare_process.pid)
-    eq._create_or_recycle_player_process_if_needed = recycle
-    orig_kill = eq._kill_compare_process
+    def recycle(self):
+        orig_recycle(self)
+        task_pid.append(self._compare_process.pid)
+    Equalizer._create_or_recycle_player_process_if_needed = recycle
+    orig_kill = Equalizer._kill_compare_process
     late_waits = []
 
-    def kill():
+    def kill(self):
         # injected delay at an existing suspension point: when the current recording is scripted "late", the kill lands only
         # after the worker's answer is in the pipe (an OS scheduling delay the parent cannot exclude)
         idx = len(results)
         if idx < len(case['behaviours']) and case['behaviours'][idx] == 'late':
             t0 = time.monotonic()
-            q = eq._compare_results
+            q = self._compare_results
             while time.monotonic() - t0 < 5:
                 try:
                     if q._reader.poll(0.02):
@@ -183,14 +200,29 @@ def main():
                 except Exception:
                     break
             late_waits.append(time.monotonic() - t0)
-        orig_kill()
-    eq._kill_compare_process = kill
+        orig_kill(self)
+    Equalizer._kill_compare_process = kill
+
+    studio = None
+    if case.get('via_studio'):
+        # the run is started through a long-lived PlaybackStudio (which outlives an abandoned run), not through the Equalizer directly
+        from playback.studio.studio import PlaybackStudio
+        from playback.studio.equalizer_tuning import EqualizerTuner, EqualizerTuning
+
+        class Tuner(EqualizerTuner):
+            def create_category_tuning(self, category):
+                return EqualizerTuning(playback_function, result_extractor, comparator)
+        studio = PlaybackStudio(['EqOp'], Tuner(), rec, recording_ids=list(ids), compare_execution_config=cfg)
+        run_comparison = lambda: studio.play()['EqOp']     # noqa: E731
+    else:
+        eq = Equalizer(iter(ids), player, result_extractor, comparator, compare_execution_config=cfg)
+        run_comparison = eq.run_comparison
 
     results = []
     stamps = []
     error = None
     consume = case.get('consume', 'full')
-    gen = eq.run_comparison()
+    gen = run_comparison()
     if hang_flag:
         import threading
 
